@@ -339,6 +339,8 @@ macro_rules! impl_cache {
                         }
                     }
                     UpdateResult::Update(v) => {
+                        #[cfg(transparencies_stretto_verif)]
+                        crate::verif::sched::point("update:after_store_update");
                         self.callback.on_exit(Some(v));
                         Ok(Some((index, $item::update(index, cost, external_cost))))
                     }
@@ -415,8 +417,12 @@ macro_rules! impl_cache_processor {
                     } => {
                         let cost = self.calculate_internal_cost(cost);
                         let (victim_sets, added) = self.policy.add(key, cost);
+                        #[cfg(transparencies_stretto_verif)]
+                        crate::verif::sched::point("item:new:after_policy_add");
                         if added {
                             self.store.try_insert(key, value, conflict, expiration)?;
+                            #[cfg(transparencies_stretto_verif)]
+                            crate::verif::sched::point("item:new:after_store_insert");
                             self.track_admission(key);
                         } else {
                             self.callback.on_reject(CrateItem {
@@ -430,6 +436,8 @@ macro_rules! impl_cache_processor {
 
                         if let Some(victims) = victim_sets {
                             for victim in victims {
+                                #[cfg(transparencies_stretto_verif)]
+                                crate::verif::sched::point("item:new:before_victim_remove");
                                 let sitem = self.store.try_remove(&victim.key, 0)?;
                                 if let Some(sitem) = sitem {
                                     let item = CrateItem {
@@ -452,12 +460,16 @@ macro_rules! impl_cache_processor {
                         external_cost,
                     } => {
                         let cost = self.calculate_internal_cost(cost) + external_cost;
+                        #[cfg(transparencies_stretto_verif)]
+                        crate::verif::sched::point("item:update:before_policy_update");
                         self.policy.update(&key, cost);
 
                         Ok(())
                     }
                     $item::Delete { key, conflict } => {
                         self.policy.remove(&key); // deals with metrics updates.
+                        #[cfg(transparencies_stretto_verif)]
+                        crate::verif::sched::point("item:delete:after_policy_remove");
                         if let Some(sitem) = self.store.try_remove(&key, conflict)? {
                             self.callback.on_exit(Some(sitem.value.into_inner()));
                         }
@@ -661,6 +673,8 @@ macro_rules! impl_async_cache {
                         }
                     }
                     UpdateResult::Update(v) => {
+                        #[cfg(transparencies_stretto_verif)]
+                        crate::verif::sched::point("update:after_store_update");
                         self.callback.on_exit(Some(v));
                         Ok(Some((index, $item::update(index, cost, external_cost))))
                     }
